@@ -245,6 +245,9 @@ func (g *c20Gen) items(depth int) []*c20Item {
 		if r.Chance(2, 3) || depth >= 2 {
 			it.attr = true
 			it.name = fmt.Sprintf("%s%d", gen.Pick(r, []string{"a", "name", "long_attribute", "x-y"}), g.uid)
+			if r.Chance(1, 20) { // the formatter aligns the equals signs of neighbouring attributes
+				it.name = "n" + strings.Repeat(gen.Pick(r, []string{"_very_long", "x", "-y"}), 5+r.Intn(12)) + strconv.Itoa(g.uid)
+			}
 			it.valSrc = g.value()
 			if r.Chance(1, 4) && !strings.Contains(it.valSrc, "\n") {
 				it.trailing = gen.Pick(r, []string{"# trailing", "// t2"})
@@ -255,6 +258,17 @@ func (g *c20Gen) items(depth int) []*c20Item {
 				it.labels = append(it.labels, gen.Pick(r, []string{"l1", "two words", "x"}))
 			}
 			it.body = g.items(depth + 1)
+			if depth == 0 && r.Chance(1, 30) { // nesting deeper than the formatter's prepared indentation
+				inner := it
+				for k := 0; k < 18+r.Intn(12); k++ {
+					g.uid++
+					nb := &c20Item{name: "b"}
+					inner.body = append(inner.body, nb)
+					inner = nb
+				}
+				g.uid++
+				inner.body = []*c20Item{{attr: true, name: fmt.Sprintf("deep%d", g.uid), valSrc: "1"}}
+			}
 		}
 		out = append(out, it)
 	}
@@ -266,6 +280,9 @@ func (g *c20Gen) write(items []*c20Item, ind string, sb *strings.Builder) {
 	ws := func() string {
 		if r.Chance(1, 10) { // an inline comment is allowed between any two tokens of a header or an attribute
 			return gen.Pick(r, []string{" /* c */ ", "/**/", " /* two words */ "})
+		}
+		if r.Chance(1, 25) { // a wide gap
+			return strings.Repeat(gen.Pick(r, []string{" ", " ", "\t"}), 38+r.Intn(90))
 		}
 		return gen.Pick(r, []string{" ", " ", "  ", "\t", " \t "})
 	}
@@ -495,6 +512,18 @@ func runC20(c *Ctx) {
 			return out
 		}
 		names := append(attrNames(items), "fresh", "fresh2")
+		// strings for set values and labels: template markers after ASCII and non-ASCII text, lone $ % {, quotes, backslashes
+		composed := func(nl bool) string {
+			parts := []string{"a", "é", "€", "日本", "${x}", "%{y}", "${", "%{", "$", "%", "{", "}", "$$", "%%", "$${", "\"", "\\", " ", "x y", "\t"}
+			if nl {
+				parts = append(parts, "\n")
+			}
+			var b strings.Builder
+			for i := 0; i < 1+r.Intn(4); i++ {
+				b.WriteString(gen.Pick(r, parts))
+			}
+			return b.String()
+		}
 		for k := 0; k < nops; k++ {
 			p := gen.Pick(r, paths)
 			var ps []string
@@ -508,6 +537,9 @@ func runC20(c *Ctx) {
 			switch r.Intn(8) {
 			case 0, 1, 2:
 				v := gen.Pick(r, []string{"n7", "n0", "n-3", "n9223372036854775807", "n9223372036854775808", "n18446744073709551615", "n-9223372036854775809", "n123456789012345678901234567890", "t", "f", "s" + hx([]byte("new value")), "s" + hx([]byte("q\"uote")), "s-", "l" + hx([]byte("a")) + "+" + hx([]byte("b")), "l"})
+				if r.Chance(1, 3) {
+					v = "s" + hx([]byte(composed(true)))
+				}
 				ops = append(ops, "set:"+path+":"+gen.Pick(r, names)+":"+v)
 				c.Count("op.set")
 			case 3, 4:
@@ -515,6 +547,12 @@ func runC20(c *Ctx) {
 				c.Count("op.rm")
 			case 5, 6:
 				ls := gen.Pick(r, []string{"", hx([]byte("lbl")), hx([]byte("two words")) + "+" + hx([]byte("x"))})
+				if r.Chance(1, 3) {
+					ls = hx([]byte(composed(false)))
+					if r.Bool() {
+						ls += "+" + hx([]byte(composed(false)))
+					}
+				}
 				ops = append(ops, "addblock:"+path+":"+gen.Pick(r, []string{"added", "block"})+":"+ls)
 				c.Count("op.addblock")
 			default:
